@@ -20,6 +20,10 @@ pub enum Case {
     /// a session whose (psk, psk_id) may be any constructible bundle, including the empty one in
     /// a PSK mode; compared with the reference key schedule fed with the bundle's fields
     Session { sess: Session, msgs: Vec<Msg>, exports: Vec<ExportReq> },
+    /// two sessions that share the PSK bundle, run one after the other on the same thread: the
+    /// bundle's fields must enter the key schedule of the second one afresh, whatever came before
+    /// (same psk_id under another suite or mode)
+    Pair { first: Session, second: Session, msgs: Vec<Msg> },
 }
 
 pub struct P;
@@ -103,7 +107,7 @@ impl Property for P {
     }
     fn rule(&self) -> String {
         "Generated: (psk, psk_id) pairs over edge-biased lengths for the constructor; sessions in all 4 modes x 48 suites with any constructible bundle (including the empty bundle in a PSK mode and bundles where one field is a prefix/suffix of the other). \
-         Swept: the 65x65 grid of (len psk, len psk_id) for the constructor; 48x4 cells with psk != psk_id. \
+         Swept: the 65x65 grid of (len psk, len psk_id) for the constructor; 48x4 cells with psk != psk_id; pairs of sessions that share the bundle and run back to back on one thread with one suite component or the mode changed. \
          Oracle: constructor Ok iff both empty or both non-empty else InvalidPskBundle; ciphertexts/exports equal the reference key schedule fed with the bundle's fields (non-PSK modes: empty defaults). \
          Non-trivial: lone-key/lone-id constructor calls, consistent bundles with psk != psk_id, PSK-mode sessions with psk != psk_id."
             .into()
@@ -131,7 +135,27 @@ impl Property for P {
                 (Just(sess), proptest::collection::vec(gen::msg(100), 0..=3), proptest::collection::vec(export_req(nh), 0..=2))
             })
             .prop_map(|(sess, msgs, exports)| Case::Session { sess, msgs, exports });
-        prop_oneof![2 => ctor, 3 => session].boxed()
+        let pair = (gen::session_any(), gen::suite_any(), gen::mode(), gen::stream(), any::<u8>(), proptest::collection::vec(gen::msg(60), 0..=2)).prop_map(|(first, suite2, mode2, stream2, keep, msgs)| {
+            let mut first = first;
+            first.mode |= 1;
+            let mut second = first.clone();
+            // the second session differs in suite components / mode / randomness but keeps the bundle
+            if keep & 1 != 0 {
+                second.suite.aead = suite2.aead;
+            }
+            if keep & 2 != 0 {
+                second.suite.kem = suite2.kem;
+            }
+            if keep & 4 != 0 {
+                second.suite.kdf = suite2.kdf;
+            }
+            if keep & 8 != 0 {
+                second.mode = mode2 | 1;
+            }
+            second.stream = stream2;
+            Case::Pair { first, second, msgs }
+        });
+        prop_oneof![2 => ctor, 3 => session, 1 => pair].boxed()
     }
     fn cases(&self, tier: Tier) -> u32 {
         tier.pick(10000, 100000)
@@ -153,12 +177,43 @@ impl Property for P {
                 cells.push(Case::Session { sess: e, msgs: gen::fixed_msgs(16), exports: vec![] });
             }
         }
-        vec![("ctor_length_grid_65x65".into(), grid), ("suite_x_mode_cells".into(), cells)]
+        // same bundle, same KDF, one other suite component changed, back to back on one thread
+        let mut pairs = Vec::new();
+        for kem in r::KemId::ALL {
+            for kdf in r::KdfId::ALL {
+                for mode in [1u8, 3u8] {
+                    let a = gen::cell_session(Suite { kem, kdf, aead: r::AeadId::ChaCha }, mode, 150);
+                    for aead2 in [r::AeadId::Aes128, r::AeadId::Export] {
+                        let mut b = a.clone();
+                        b.suite.aead = aead2;
+                        b.stream = Bytes(gen::fill(160, 5, 151));
+                        pairs.push(Case::Pair { first: a.clone(), second: b, msgs: gen::fixed_msgs(150) });
+                    }
+                    let mut b = a.clone();
+                    b.suite.kem = if kem == r::KemId::X25519 { r::KemId::P256 } else { r::KemId::X25519 };
+                    pairs.push(Case::Pair { first: a.clone(), second: b, msgs: gen::fixed_msgs(150) });
+                    let mut b = a.clone();
+                    b.mode = mode ^ 2;
+                    pairs.push(Case::Pair { first: a, second: b, msgs: gen::fixed_msgs(150) });
+                }
+            }
+        }
+        vec![("ctor_length_grid_65x65".into(), grid), ("suite_x_mode_cells".into(), cells), ("same_bundle_back_to_back_pairs".into(), pairs)]
     }
     fn check(&self, case: &Case, obs: &mut Obs) -> Verdict {
         match case {
             Case::Ctor { psk, psk_id } => check_ctor(psk, psk_id, obs),
             Case::Session { sess, msgs, exports } => check_session(sess, msgs, exports, obs),
+            Case::Pair { first, second, msgs } => {
+                obs.label("pair:shared-bundle");
+                let v = check_session(first, msgs, &[], obs);
+                if v != Verdict::Pass {
+                    return v;
+                }
+                let v = check_session(second, msgs, &[], obs);
+                obs.nontrivial = true;
+                v
+            }
         }
     }
 }
